@@ -116,8 +116,10 @@ def reg_check(ctx, small, key, img_chw, kp_out, kp_orig, marker_level=1.0, tol=1
         if err > tol:
             j = int(np.argmax(np.abs(where - kp_out[vis]).max(-1)))
             Hh, Ww = img_chw.shape[-2:]
-            aspect = max(Hh, Ww) / min(Hh, Ww)
-            if aug_rotation and aspect >= 1.5 and err <= tol - 0.7 + 0.45 * aspect:
+            # mechanism of the known finding: kornia rotates the image in coordinates normalised per axis, so on a non-square image the image
+            # transform and the keypoint transform differ by up to d * (1/min(H,W) - 1/max(H,W)) at distance d from the image centre (0 on squares)
+            d_c = float(np.hypot(where[j][0] - (Ww - 1) / 2.0, where[j][1] - (Hh - 1) / 2.0))
+            if aug_rotation and Hh != Ww and err <= 0.35 + 1.05 * d_c * (1.0 / min(Hh, Ww) - 1.0 / max(Hh, Ww)):
                 key = KEY_KORNIA
             ctx.violation(key, f"{what}: content of keypoint {kp_orig[vis][j].tolist()} is at {np.round(where[j], 2).tolist()} in the output but the returned keypoint is "
                                f"{np.round(kp_out[vis][j], 2).tolist()} (off by {err:.2f} px)", small)
